@@ -73,6 +73,13 @@ def main(ctx):
             # the other environments differ only in adapter / validator / masker: strict contexts
             sweep_ctxs = [c for c in sweep_ctxs if c["inside"] == "none" and not c["relaxed"]
                           and not c["compress"] and (ei == 1 or not c["failByDrop"])]
+        if ei == 0 or tier == "thorough":
+            # options configured per protocol class instead of through the factory (values that
+            # are falsy and differ from the factory defaults: failByDrop, requireMaskedClientFrames)
+            sweep_ctxs = sweep_ctxs + [
+                {"role": role, "failByDrop": False, "compress": False, "inside": "none",
+                 "relaxed": relaxed, "via": "class"}
+                for role in ("server", "client") for relaxed in (False, True)]
         for c in sweep_ctxs:
             for b0lo in range(0, 256, 32):
                 jobs.append({"kind": "sweep", "ctx": c, "b0": [b0lo, b0lo + 32]})
@@ -145,6 +152,10 @@ def _endpoint(c):
             opts["requireMaskedClientFrames"] = False
         else:
             opts["acceptMaskedServerFrames"] = True
+    if c.get("via") == "class":
+        # the same options declared on the protocol class, the factory left at its defaults
+        # (documented alternative; per-connection values take precedence over the factory's)
+        return ws.open_endpoint(c["role"], None, compress=c["compress"], proto_class_attrs=opts)
     return ws.open_endpoint(c["role"], opts, compress=c["compress"])
 
 
@@ -290,6 +301,8 @@ def _viol(c, env, clause, detail, stream_hex, segs, label):
     cid = "%s/%s/%s/%s/%s" % (c["role"], "drop" if c["failByDrop"] else "close",
                                 "pmce" if c["compress"] else "plain", c["inside"],
                                 "relaxed" if c["relaxed"] else "strict")
+    if c.get("via"):
+        cid += "/options-on-protocol-" + c["via"]
     return {"sig": "C02|%s|%s|%s" % (clause, label, c["role"]),
             "desc": "[%s fw=%s nvx=%s] %s: %s  stream=%s" % (
                 cid, env.get("fw"), env.get("nvx"), clause, detail, stream_hex[:200]),
